@@ -6,6 +6,7 @@ import (
 	"fmt"
 	"io"
 	"runtime"
+	"strings"
 	"testing"
 
 	"github.com/hattya/go.sh/ast"
@@ -32,6 +33,26 @@ var c18Programs = []string{
 	"case x in a) b;; (c|d) e;; esac\n", "f() { a; }\n", "{ a; b; }\n", "a <<E | b <<F\n1\nE\n2\nF\n", "a && b || c\n", "! a | b\n", "x=1 y=2 cmd arg >f 2>&1 <in\n",
 	"((x+1))\n", "a $(b; c) `d`\n", "a \"$x ${y:-z}\" 'q' \\n\n", "a &\n", "a; b &\n", "until a; do b; done\n", "if a; then b; elif c; then d; else e; fi\n", "a <<-E\n\tx\n\tE\n",
 	"case x in\nesac\n", "a \\\n", "( a\nb )\n", "{\na\n}\n", "a # c\n", "if a; then\n  ( (b); c )\nfi\n", "$( (a); b )\n",
+	"case x in a) foo; ;; b) bar ;; esac\n", "case x in a) foo; ;; b) bar; ;; c) baz & ;; esac\n", "case x in (a) b; c; ;; d) ;; e) f; ;; esac\n",
+	"if a; then b; fi; while c; do d; done\n", "if a; b; then c; fi\n", "while a; b; do c; done\n", "until a; do b; c; done\n", "for x in a; do b; c; done\n",
+	"if a; then b; elif c; d; then e; else f; fi\n", "{ a; b; }; ( c; d )\n", "a; b; c\n", "a & b & c &\n",
+}
+
+func init() {
+	// outputs larger than the 4096/8192-byte bufio buffer, with indented lines before and after the boundaries
+	big := strings.Repeat("w", 5000)
+	c18Programs = append(c18Programs,
+		"{\n echo "+big+"\n if a; then\n  b\n fi\n c\n}\n",
+		"for x in a; do\n echo "+big+big[:4500]+"\n while b; do\n  c\n done\ndone\n",
+		"case x in\n a)\n  echo "+big+"\n  b;;\n c)\n  d;;\nesac\n",
+	)
+	var b strings.Builder
+	b.WriteString("if a; then\n")
+	for i := 0; i < 400; i++ {
+		fmt.Fprintf(&b, "  echo line %d of many; { x; y; }\n", i)
+	}
+	b.WriteString("fi\n")
+	c18Programs = append(c18Programs, b.String())
 }
 
 func (c18) counts(tier string) int {
@@ -55,6 +76,10 @@ func (p c18) Gen(seed uint64, tier string, idx int) (*Case, bool) {
 		o.MaxDepth = 1 + src.Intn(3)
 		o.BigWords = src.Chance(1, 6)
 		o.HDBias = src.Chance(1, 3)
+		if src.Chance(1, 4) {
+			// single-line forms: the printer's one-line branches (which hide and restore separators)
+			o.MultiLine, o.Heredocs, o.QuotedNL, o.Continuation, o.InnerComments = false, false, false, false, false
+		}
 		g := gen.NewG(src, o)
 		it := g.CompleteCommand(false)
 		for it.Blank {
